@@ -62,7 +62,7 @@ def cases7(tier, seed):
             yield dict(env='ideal' if ground else 'free', f=f, lam=lam, pts=pts, st=[dict(a=a, b=b, n=nseg[i], r=rad[i] * lam) for i, (a, b) in enumerate(es)])
 
 
-def extras(tier, seed):
+def extras(tier, seed, thick=False):
     """structures with objects whose end segments differ (tapered wires, arcs, helices): the junction
     pulse then depends on WHICH end segment of the earlier object is taken"""
     rot, sc, f = geom.variant(seed)
@@ -118,6 +118,47 @@ def extras(tier, seed):
                      [geom.wire(sg.p2, sg.p1, 1, r) for sg in wt.segments][::-1] + [tail]]
             yield dict(extra='taper%d-split-%s-n%d' % (ttype, env, nt), env=env, f=f, lam=lam, descs=descs,
                        srcs=[dict(at=list(T1 + (T2 - T1) / 3), dir=list(T2 - T1), v=[1.0, 0.0])], loads=[])
+    # --- telescoping element: exactly collinear wires of EQUAL segment length but different radii (bit-identical
+    # segment vectors on both sides of a junction: coordinates are binary fractions), axis-parallel and sloping,
+    # free space, horizontal above ground and standing on the ground
+    ft = 30.0
+    lt = geom.C_MININEC / ft
+    for name, env, o, d in (('y-free', 'free', (0., -1., 0.5), (0., 1., 0.)), ('x-ideal', 'ideal', (-1., 0., 1.25), (1., 0., 0.)),
+                            ('z-ideal', 'ideal', (0., 0., 0.), (0., 0., 1.)), ('diag-free', 'free', (0., 0., 0.), (0.5, 0.25, 0.75))):
+        o, d = np.array(o), np.array(d)
+        # thick=True (C02 only, whose statement has no radius/length limit): centre tube of 0.3 segment lengths radius
+        for radii in ((0.002, 0.0075, 0.002), (0.0075, 0.002, 0.004), (0.002, 0.03, 0.004)) + (((0.004, 0.075, 0.004),) if thick else ()):
+            stops = [o, o + d, o + 2 * d, o + 3 * d]
+            descs = []
+            for order in ((0, 1, 2), (2, 1, 0), (1, 0, 2)):
+                for flips in ((0, 0, 0), (1, 1, 1), (0, 1, 0)):
+                    descs.append([geom.wire(stops[i + 1], stops[i], 4, radii[i]) if flips[i] else geom.wire(stops[i], stops[i + 1], 4, radii[i])
+                                  for i in order])
+            yield dict(extra='telescope-%s-%g-%g-%g' % ((name,) + radii), env=env, f=ft, lam=lt, descs=descs,
+                       srcs=[dict(at=list(o + 1.5 * d), dir=list(d), v=[1.0, 0.0])], loads=[])
+    # --- distributed loads (skin effect + insulation sleeve) on ONE object of a junction: the junction pulse is owned by
+    # either neighbour depending on order/orientation and must carry the loaded half in every description
+    Bd, Cd = np.array([0.15, 0.03, 0.04]) * lam, np.array([0.21, 0.14, 0.11]) * lam
+    Dd = Cd + np.array([-0.03, 0.12, 0.05]) * lam
+    for name, chain, loaded in (('2w-first', (A, Bd, Cd), (0,)), ('2w-second', (A, Bd, Cd), (1,)), ('3w-middle', (A, Bd, Cd, Dd), (1,)),
+                                ('3w-outer', (A, Bd, Cd, Dd), (0, 2))):
+        chain = [Rg @ np.array(p) for p in chain]
+        nw = len(chain) - 1
+        nsg = [geom.auto_nseg(np.linalg.norm(chain[i + 1] - chain[i]), 0.035 * lam) for i in range(nw)]
+        descs = []
+        for order in itertools.permutations(range(nw)):
+            for flips in itertools.product((0, 1), repeat=nw):
+                ws = []
+                for i in order:
+                    w_ = geom.wire(chain[i + 1], chain[i], nsg[i], r) if flips[i] else geom.wire(chain[i], chain[i + 1], nsg[i], r)
+                    if i in loaded:
+                        w_['skin'] = 2e5
+                        w_['coat'] = [3 * r, 3.5]
+                    ws.append(w_)
+                descs.append(ws)
+        p0, p1 = chain[0], chain[1]
+        yield dict(extra='distload-' + name, env='free', f=f, lam=lam, descs=descs,
+                   srcs=[dict(at=list(p1 + (p0 - p1) / nsg[0]), dir=list(p1 - p0), v=[1.0, 0.0])], loads=[])
     # --- arc (in its own x-z plane, centre at the origin) + straight tail at either arc end
     R = 0.06 * lam
     for (a1, a2) in ((0., 120.), (30., -100.)):
